@@ -114,7 +114,7 @@ def cxx_shapes():
 def structure_class(c):
     """Closed-form structural class of a record (used to attribute known unrepresentable shapes)."""
     if not hasattr(c, "atoms"):
-        return "cxx"
+        return c.cid.split(" ")[0] if c.cid.startswith("cxx-shape") else "cxx-names"
     packed = c.rattr in ("packed", "pk_al4", "pp1", "pp2", "pp4", "pp8") or c.mattr == "mpk"
     aligned = c.rattr in ("al2", "al4", "al8", "al16", "al64", "pk_al4") or c.mattr in ("mal8", "mal16", "mal64")
     over = any(k in ("nestal", "ldouble", "i128") for k in c.atoms)
